@@ -1,7 +1,7 @@
 //! C20 — lazy per-depth layers under concurrent first use.
 //! One process = one set of "first uses" (each depth of each table is created at most once per process).
 //! Run under Miri (many seeds = many schedules + data-race detector), under ThreadSanitizer, and natively.
-//! usage: conc <threads> <mode: same|mixed|both> <seed> [light]
+//! usage: conc <threads> <mode: same|mixed|both|stagger> <seed> [light|lightsurf|full]
 //! Prints one line "C20-RESULT {json}" at the end; exits 1 on a monitor violation (assertion on counts / identity / results).
 use cdshealpix::nested::{self, Layer};
 use std::sync::atomic::{AtomicU64, Ordering};
@@ -11,9 +11,9 @@ static SEQ: AtomicU64 = AtomicU64::new(1);
 fn stamp() -> u64 { SEQ.fetch_add(1, Ordering::SeqCst) }
 
 #[derive(Clone, Debug, PartialEq)]
-struct Res { hash: u64, center: (u64, u64), neigh: Vec<u64>, cone: Vec<u64>, c2v: u64 }
+struct Res { hash: u64, center: (u64, u64), neigh: Vec<u64>, cone: Vec<u64>, c2v: u64, ell: Vec<u64>, poly: Vec<u64>, bil: Vec<(u64, u64)>, ring: (u64, u64), edge: Vec<u64>, hwd: (u64, u64, u64), verts: Vec<u64> }
 
-fn compute(layer: &Layer, depth: u8, light: bool) -> Res {
+fn compute(layer: &Layer, depth: u8, light: bool, surface: bool) -> Res {
   let (lon, lat) = (1.0 + 0.1 * depth as f64, 0.3 + 0.03 * depth as f64);
   let hash = layer.hash(lon, lat);
   let c = layer.center(hash);
@@ -21,7 +21,18 @@ fn compute(layer: &Layer, depth: u8, light: bool) -> Res {
   // small cone (uses the second lazily initialised table through largest_center_to_vertex_distance*)
   let cone = if light && depth > 6 { Vec::new() } else { let r = 2.5 / (1u64 << depth) as f64; layer.cone_coverage_approx(lon, lat, r.min(3.0)).entries.to_vec() };
   let c2v = cdshealpix::largest_center_to_vertex_distance(depth, lon, lat).to_bits();
-  Res { hash, center: (c.0.to_bits(), c.1.to_bits()), neigh, cone, c2v }
+  // the rest of the public surface that works through the shared layer (and, for the coverages, through the layers of the
+  // shallower depths of their recursion): any state written after publication would be raced on here
+  let cell = 1.0 / (1u64 << depth) as f64;
+  let heavy = surface && !(light && depth > 6);
+  let ell = if heavy { let a = (2.5 * cell).min(1.2); layer.elliptical_cone_coverage(lon, lat, a, 0.6 * a, 0.4).entries.to_vec() } else { Vec::new() };
+  let poly = if heavy { let e = (2.0 * cell).min(0.3); layer.polygon_coverage(&[(lon - e, lat - e), (lon + e, lat - 0.5 * e), (lon, lat + e)], depth % 2 == 0).entries.to_vec() } else { Vec::new() };
+  let bil: Vec<(u64, u64)> = if surface { layer.bilinear_interpolation(lon, lat).iter().map(|x| (x.0, x.1.to_bits())).collect() } else { Vec::new() };
+  let ring = if surface { let r = layer.to_ring(hash); (r, layer.from_ring(r)) } else { (0, 0) };
+  let edge = if surface && depth < 29 { layer.external_edge_sorted(hash, 1).to_vec() } else { Vec::new() };
+  let hwd = if surface { let w = layer.hash_with_dxdy(lon, lat); (w.0, w.1.to_bits(), w.2.to_bits()) } else { (0, 0, 0) };
+  let verts: Vec<u64> = if surface { layer.vertices(hash).iter().flat_map(|v| vec![v.0.to_bits(), v.1.to_bits()]).collect() } else { Vec::new() };
+  Res { hash, center: (c.0.to_bits(), c.1.to_bits()), neigh, cone, c2v, ell, poly, bil, ring, edge, hwd, verts }
 }
 
 struct Obs { depth: u8, enter: u64, got: u64, ptr: usize, res: Res }
@@ -31,7 +42,9 @@ fn main() {
   let threads: usize = a.get(1).and_then(|s| s.parse().ok()).unwrap_or(4);
   let mode = a.get(2).cloned().unwrap_or_else(|| "both".into());
   let seed: u64 = a.get(3).and_then(|s| s.parse().ok()).unwrap_or(1);
-  let light = a.get(4).map(|s| s == "light").unwrap_or(false);
+  // "light": few depths, coverages only for depth <= 6 (Miri); "lightsurf": the same plus the whole public surface; absent / "full": everything
+  let light = a.get(4).map(|s| s.starts_with("light")).unwrap_or(false);
+  let surface = a.get(4).map(|s| s != "light").unwrap_or(true);
   let depths: Vec<u8> = if light { let mut v: Vec<u8> = (0..30u8).filter(|d| (*d as u64 + seed) % 5 == 0).collect(); if v.is_empty() { v.push(3); } v } else { (0..30u8).collect() };
   let mut violations: Vec<String> = Vec::new();
   let mut all: Vec<Obs> = Vec::new();
@@ -55,7 +68,7 @@ fn main() {
         let enter = stamp();
         let layer: &'static Layer = nested::get_or_create(depth);
         let got = stamp();
-        let res = compute(layer, depth, light);
+        let res = compute(layer, depth, light, surface);
         Obs { depth, enter, got, ptr: layer as *const Layer as usize, res }
       })
     }).collect();
@@ -70,7 +83,7 @@ fn main() {
     // same object
     if obs.iter().any(|o| o.ptr != obs[0].ptr) { violations.push(format!("depth {}: threads obtained different Layer objects", d)); }
     // same results as a single-threaded recomputation
-    let want = compute(nested::get_or_create(d), d, light);
+    let want = compute(nested::get_or_create(d), d, light, surface);
     for o in obs.iter() { if o.res != want { violations.push(format!("depth {}: result computed through the concurrently obtained layer differs from the single-threaded result", d)); break; } }
     // overlap evidence: two calls in flight at the same time
     let mut ov = false;
